@@ -44,6 +44,12 @@ theorem adjPos_step {c c' : Cap} {a : Act} (h : AdjPos c) (hs : step c a = some 
     · exact h w h1 hk
     · subst h1; cases hk
   case acceptDone id => split at hs <;> cases hs; exact h
+  case acceptFail id =>
+    split at hs
+    · split at hs <;> cases hs
+      intro w hw hk
+      exact h w (notify_waiters_sub _ _ w hw) hk
+    · cases hs
   case connClose id =>
     split at hs
     · split at hs <;> cases hs
@@ -166,6 +172,10 @@ theorem headBlocked_step {c c' : Cap} {a : Act} (h : HeadBlocked c) (hs : step c
   cases a <;> simp only [step] at hs
   case acquire id => split at hs <;> cases hs; exact semAcquire_headBlocked h _
   case acceptDone id => split at hs <;> cases hs; exact h
+  case acceptFail id =>
+    split at hs
+    · split at hs <;> cases hs; exact notify_headBlocked _ _
+    · cases hs
   case connClose id =>
     split at hs
     · split at hs <;> cases hs; exact notify_headBlocked _ _
@@ -231,5 +241,175 @@ theorem parked_means_over_cap {c : Cap} (hinv : CapInv c) (hpos : AdjPos c) (hhe
     · have hu : w0.kind = WKind.unit := by cases hkk : w0.kind <;> simp_all
       have h1 := hinv.unit1 w0 (by rw [hc]; exact List.mem_cons_self ..) hu
       omega
+
+/-! ## `quiet` persists until the next `SetMaxCount`; the executable snapshot spec accepts the model -/
+
+theorem semAcquire_pending (c : Cap) (v : Waiter) : (semAcquire c v).pending = c.pending := by
+  unfold semAcquire; split
+  · unfold grant; split <;> rfl
+  · rfl
+
+theorem notify_pending (ws : List Waiter) (c : Cap) : (notify c ws).pending = c.pending := by
+  induction ws generalizing c with
+  | nil => rfl
+  | cons v r ih => unfold notify; split; · rfl
+                   · rw [ih]; unfold grant; split <;> rfl
+
+theorem notify_realCap (ws : List Waiter) (c : Cap) : (notify c ws).realCap = c.realCap := by
+  induction ws generalizing c with
+  | nil => rfl
+  | cons v r ih => unfold notify; split; · rfl
+                   · rw [ih]; unfold grant; split <;> rfl
+
+theorem semAcquire_realCap (c : Cap) (v : Waiter) : (semAcquire c v).realCap = c.realCap := by
+  unfold semAcquire; split
+  · unfold grant; split <;> rfl
+  · rfl
+
+theorem quiet_iff (c : Cap) : quiet c = true ↔ c.pending = [] ∧ ∀ w ∈ c.waiters, w.kind ≠ WKind.adj := by
+  simp [quiet, List.isEmpty_iff, List.all_eq_true]
+
+/-- **quiet_stable**: a step that is not a `SetMaxCount` keeps a quiet state quiet and the cap unchanged. -/
+theorem quiet_stable {c c' : Cap} {a : Act} (hq : quiet c = true) (hs : step c a = some c')
+    (hn : ∀ n, a ≠ Act.setMax n) : quiet c' = true ∧ c'.realCap = c.realCap := by
+  obtain ⟨hp, hw⟩ := (quiet_iff c).mp hq
+  cases a <;> simp only [step] at hs
+  case acquire id =>
+    split at hs <;> cases hs
+    refine ⟨(quiet_iff _).mpr ⟨by rw [semAcquire_pending]; exact hp, ?_⟩, semAcquire_realCap _ _⟩
+    intro w hw'
+    rcases semAcquire_waiters_sub _ _ w hw' with h1 | h1
+    · exact hw w h1
+    · subst h1; simp
+  case acceptDone id => split at hs <;> cases hs; exact ⟨(quiet_iff _).mpr ⟨hp, hw⟩, rfl⟩
+  case acceptFail id =>
+    split at hs
+    · split at hs <;> cases hs
+      refine ⟨(quiet_iff _).mpr ⟨by simp only [semRelease, notify_pending]; exact hp, ?_⟩, by simp only [semRelease, notify_realCap]⟩
+      intro w hw'; exact hw w (notify_waiters_sub _ _ w hw')
+    · cases hs
+  case connClose id =>
+    split at hs
+    · split at hs <;> cases hs
+      refine ⟨(quiet_iff _).mpr ⟨by simp only [semRelease, notify_pending]; exact hp, ?_⟩, by simp only [semRelease, notify_realCap]⟩
+      intro w hw'; exact hw w (notify_waiters_sub _ _ w hw')
+    · split at hs <;> cases hs; exact ⟨hq, rfl⟩
+  case setMax n => exact absurd rfl (hn n)
+  case adjust id => rw [hp] at hs; simp [takeAdj] at hs
+
+theorem filter_adj_length_zero (ws : List Waiter) :
+    (ws.filter (·.kind == WKind.adj)).length = 0 ↔ ∀ w ∈ ws, w.kind ≠ WKind.adj := by
+  simp [List.filter_eq_nil_iff]
+
+theorem adjSum_zero_of_no_adj (ws : List Waiter) (h : ∀ w ∈ ws, w.kind ≠ WKind.adj) : adjSum ws = 0 := by
+  induction ws with
+  | nil => rfl
+  | cons v r ih =>
+    simp only [adjSum, if_neg (h v (List.mem_cons_self ..)), ih (fun w hw => h w (List.mem_cons_of_mem _ hw))]; rfl
+
+/-- The executable snapshot specification accepts every settled model state that satisfies the invariants
+(all reachable ones: `Props/C17.lean: spec_accepts_model`). -/
+theorem obsViolation_none_of_inv {c : Cap} (hinv : CapInv c) (hpos : AdjPos c) (hhead : HeadBlocked c)
+    (hp : c.pending = []) : obsViolation (obsOf c) = none := by
+  have hsz := hinv.size; have hcnt := hinv.count; have hle := hinv.le; have hbook := hinv.book
+  rw [hp] at hbook; simp only [pendSum] at hbook
+  have hheld : held c = ((c.inAccept.length + c.opened.length : Nat) : Int) := by simp [held]
+  have hcur : ¬ c.cur > M := by omega
+  by_cases hz : (c.waiters.filter (·.kind == WKind.adj)).length = 0
+  · -- nothing parked: quiet
+    have hno := (filter_adj_length_zero _).mp hz
+    have hs0 := adjSum_zero_of_no_adj _ hno
+    have e1 : ¬ held c > c.realCap := by rw [hheld]; omega
+    have e2 : c.cur = M - c.realCap + held c := by rw [hheld]; omega
+    have e4 : c.waiters.any (·.kind == WKind.unit) = true → ¬ held c < c.realCap := by
+      intro hany hlt
+      cases hc : c.waiters with
+      | nil => rw [hc] at hany; simp at hany
+      | cons w0 rest =>
+        have hb := hhead w0 rest hc
+        have hu : w0.kind = WKind.unit := by
+          have := hno w0 (by rw [hc]; exact List.mem_cons_self ..)
+          cases hk : w0.kind <;> simp_all
+        have h1 := hinv.unit1 w0 (by rw [hc]; exact List.mem_cons_self ..) hu
+        rw [hheld] at hlt; omega
+    simp only [obsViolation, obsOf, hz, hcur, e1, ← e2]
+    by_cases hany : c.waiters.any (·.kind == WKind.unit) = true
+    · have := e4 hany
+      simp [hany, this]
+    · simp [hany]
+  · -- a shrink is parked: more units in use than the cap
+    have hex : ∃ w ∈ c.waiters, w.kind = WKind.adj :=
+      Classical.byContradiction fun hcon =>
+        hz ((filter_adj_length_zero _).mpr (fun w hw hk => hcon ⟨w, hw, hk⟩))
+    have hover := parked_means_over_cap hinv hpos hhead hp hex
+    have e5 : ¬ held c ≤ c.realCap := by rw [hheld]; omega
+    have hz' : ((c.waiters.filter (·.kind == WKind.adj)).length == 0) = false := by simpa using hz
+    simp [obsViolation, obsOf, hz', hcur, e5]
+
+/-! ## The model's guards are enabled while the capacity budget fits into the semaphore -/
+
+/-- total of the shrink amounts among the spawned, not yet executed adjustments -/
+def pendingShrink : List (Nat × Int) → Int
+  | [] => 0
+  | p :: r => (if p.2 < 0 then -p.2 else 0) + pendingShrink r
+
+/-- total of the grow amounts among the spawned, not yet executed adjustments -/
+def pendingGrow : List (Nat × Int) → Int
+  | [] => 0
+  | p :: r => (if 0 < p.2 then p.2 else 0) + pendingGrow r
+
+theorem pendSum_split (l : List (Nat × Int)) : pendSum l = pendingGrow l - pendingShrink l := by
+  induction l with
+  | nil => simp [pendSum, pendingGrow, pendingShrink]
+  | cons p r ih => simp only [pendSum, pendingGrow, pendingShrink, ih]; split <;> split <;> omega
+
+theorem pendingGrow_nonneg (l : List (Nat × Int)) : 0 ≤ pendingGrow l := by
+  induction l with
+  | nil => simp [pendingGrow]
+  | cons p r ih => simp only [pendingGrow]; split <;> omega
+
+theorem takeAdj_le_grow {id : Nat} {l l' : List (Nat × Int)} {d : Int} (h : takeAdj id l = some (d, l'))
+    (hd : 0 < d) : d ≤ pendingGrow l := by
+  induction l generalizing l' d with
+  | nil => simp [takeAdj] at h
+  | cons p r ih =>
+    have hr := pendingGrow_nonneg r
+    simp only [takeAdj] at h
+    split at h
+    · cases h; simp only [pendingGrow, hd, if_true]; omega
+    · cases hq : takeAdj id r with
+      | none => simp [hq] at h
+      | some q =>
+        obtain ⟨d', r'⟩ := q
+        simp [hq] at h
+        obtain ⟨h1, _⟩ := h
+        subst h1
+        have := ih hq hd
+        simp only [pendingGrow]; split <;> omega
+
+/-- what the configured capacity plus all outstanding shrinks (spawned or parked) amounts to: the largest
+capacity the semaphore may still be asked to carve out -/
+def budget (c : Cap) : Int := c.realCap + pendingShrink c.pending + adjSum c.waiters
+
+/-- Go's `Weighted.Release` panics ("released more than held") exactly where the model's guards `d ≤ cur`,
+`1 ≤ cur` fail. While `budget ≤ maxCapacity` they hold: every spawned grow and every Close / failed accept
+is enabled. -/
+theorem guards_enabled_of_budget {c : Cap} (hinv : CapInv c) (hb : budget c ≤ M) :
+    (∀ id d rest, takeAdj id c.pending = some (d, rest) → 0 < d → d ≤ c.cur) ∧
+    (∀ id, id ∈ c.opened → 1 ≤ c.cur) ∧ (∀ id, id ∈ c.inAccept → 1 ≤ c.cur) := by
+  have hcnt := hinv.count; have hbook := hinv.book
+  have hsplit := pendSum_split c.pending
+  have hg := pendingGrow_nonneg c.pending
+  unfold budget at hb
+  refine ⟨?_, ?_, ?_⟩
+  · intro id d rest ht hd
+    have := takeAdj_le_grow ht hd
+    omega
+  · intro id hm
+    have : 0 < c.opened.length := List.length_pos_of_mem hm
+    omega
+  · intro id hm
+    have : 0 < c.inAccept.length := List.length_pos_of_mem hm
+    omega
 
 end EgVerif.ConnCap
